@@ -707,7 +707,7 @@ def dispatch(case, ctx):
 def run(ctx):
     feature_names()
     ctx.enumerate(fixed_cases(), dispatch, label="fixed", stop_after=10)
-    ctx.hypothesis(st_load(), check_load, ctx.scale(8000, 200000), label="load")
+    ctx.hypothesis(st_load(), check_load, ctx.scale(6000, 200000), label="load")
     ctx.hypothesis(st_weights(), check_weights, ctx.scale(4000, 80000), label="weights")
     ctx.hypothesis(st_export(), check_export, ctx.scale(96, 1600), label="export")
 
